@@ -328,7 +328,7 @@ def strip_cpp_comments(text):
 
 
 
-HEADER = "-- GENERATED by tools/translate.py from the repository sources. DO NOT EDIT.\n"
+HEADER = "-- GENERATED by tools/translate.py from the repository sources. DO NOT EDIT.\nset_option linter.unusedVariables false\n"
 
 GROUPS = []
 
